@@ -5,6 +5,9 @@
 cd /verif
 P=3
 if [ "$1" = "-P" ]; then P=$2; shift 2; fi
+# a frozen copy of the harness sources: editing /verif/mc while the matrix runs must not reach it
+export MC_SRC=/tmp/fxmc-mc-snapshot
+rm -rf $MC_SRC && cp -r /verif/mc $MC_SRC
 one() {
   id=$1; d=/verif/seeded/$id
   [ -f $d/patch.diff ] || exit 0
